@@ -557,6 +557,7 @@ type FuncResult struct {
 	NoMeasure    []string    `json:"loops_without_termination_measure,omitempty"`
 	Error        string      `json:"error,omitempty"`
 	Deferred     string      `json:"deferred,omitempty"`
+	NoContract   bool        `json:"no_contract,omitempty"`
 	UsedLemmas   []string    `json:"used_lemmas,omitempty"`
 	Trusted      bool        `json:"trusted,omitempty"`
 	Inputs       []string    `json:"inputs,omitempty"`
@@ -633,6 +634,9 @@ func main() {
 			c, err = prog.genFunc(k)
 		}
 		fr := FuncResult{Key: k, GenTimeS: time.Since(tg).Seconds()}
+		if prog.Contracts.ByKey[k] == nil {
+			fr.NoContract = true
+		}
 		if err != nil {
 			fr.Error = err.Error()
 			rep.Funcs = append(rep.Funcs, fr)
